@@ -7,7 +7,7 @@ cd "$S" && CPVERIF_AMBIENT_OUT="$S/ambient.json" PYTHONPATH="$S:$HERE:$HERE/.dep
 python3 - "$S/ambient.json" <<'PY'
 import json,sys
 d=json.load(open(sys.argv[1]))
-print("judged observations:", d["evaluations"]); print("counters:", json.dumps(d["counters"])[:900]); print("unjudged:", d["unjudged"]); print("violation keys:", d["violation_keys"])
+print("judged observations:", d["evaluations"]); print("counters:", json.dumps(d["counters"])[:900]); print("unjudged:", d["unjudged"]); print("notes:", d["notes"]); print("violation keys:", d["violation_keys"])
 for v in d["violations"][:12]:
     print(" ", v["key"], json.dumps(v["case"],ensure_ascii=False)[:300], "| expected", str(v["expected"])[:120], "| observed", str(v["observed"])[:160])
 PY
